@@ -58,6 +58,8 @@ func main() {
 			"the half-width, window, trigger and catch-up numbers are measured on the test-tag build; the arithmetic source files (server/equipment.go, server/report_listener_udp.go, glow/timeslot_u.go) are the same in both builds, only the clock source and the constants files differ, and those are observed in the production-tag build",
 			"window offsets near 2^32 are a configuration reached through trusted disk state: allDeviceStats.dat is pre-seeded before the first start with ONE validly signed empty record (zero devices, signed with the pre-seeded server key); no archived week is queried in that configuration (the archive index presupposes contiguity from week 0)",
 			"CurrentTimeslot is bracketed by two reads of the system clock; a sample in which the clock went backwards between the reads is discarded (counted), not judged",
+			"host time zones are set through $TZ for the production probe (Go honours it; the probe embeds time/tzdata so the zones resolve on any host); the probe reports the zone it resolved and the run is inconclusive unless zones with a non-zero UTC offset on 2023-11-19 were in force",
+			"rotation trigger and start-up threshold are also measured for windows that contain a timeslot ceil(k*2^32/300) (k = 1, 2 and a seeded k) and for the highest window below 2^32, reached through the same pre-seeded signed record (trusted disk state); there the clock walks upward until the first rotation (one rotation per directory)",
 			"production build = tags 'verif' without 'test'; the verif tag only adds accessor functions (add-only hooks)",
 			"unix times at or beyond genesis+2^32 s and timeslots above floor((2^32-1)/300) are outside the property's quantifier; what the code returns just beyond is recorded, not judged",
 			"the inequality uses ceil(period/300 s) slots for the rotation check period and does not model the duration of the rotation itself",
@@ -108,6 +110,12 @@ func ensureProd() (string, error) {
 }
 
 func runProd(r *ev.Result, v interface{}, args ...string) bool {
+	return runProdEnv(r, nil, v, args...)
+}
+
+// runProdEnv runs the probe with a modified environment: "K=V" sets, "K="
+// (empty value) removes the variable.
+func runProdEnv(r *ev.Result, env []string, v interface{}, args ...string) bool {
 	p, err := ensureProd()
 	if err != nil {
 		r.Inconc(err.Error())
@@ -115,6 +123,23 @@ func runProd(r *ev.Result, v interface{}, args ...string) bool {
 	}
 	run.Op("exec c20prod %v", args)
 	cmd := exec.Command(p, args...)
+	if env != nil {
+		drop := map[string]bool{}
+		for _, kv := range env {
+			drop[kv[:strings.Index(kv, "=")]] = true
+		}
+		for _, kv := range os.Environ() {
+			if i := strings.Index(kv, "="); i > 0 && drop[kv[:i]] {
+				continue
+			}
+			cmd.Env = append(cmd.Env, kv)
+		}
+		for _, kv := range env {
+			if !strings.HasSuffix(kv, "=") {
+				cmd.Env = append(cmd.Env, kv)
+			}
+		}
+	}
 	var so, se bytes.Buffer
 	cmd.Stdout, cmd.Stderr = &so, &se
 	if err := cmd.Run(); err != nil {
@@ -170,6 +195,19 @@ func plan(tier string, seed int64) []run.Batch {
 	for _, off := range highOffsets {
 		add("extremes-high", 0, map[string]string{"offset": fmt.Sprint(off)})
 	}
+	// rotation trigger and start-up threshold for windows at other absolute
+	// positions: windows that CONTAIN a timeslot k*2^32/300 (where timeslot*300
+	// leaves 32 bits) and a window just below 2^32
+	for _, off := range atOffsets(seed) {
+		add("trigger-at", 0, map[string]string{"offset": fmt.Sprint(off)})
+		add("startup-at", 0, map[string]string{"offset": fmt.Sprint(off)})
+	}
+	if tier == "thorough" {
+		for _, off := range atOffsets(seed + 1000) {
+			add("trigger-at", 1, map[string]string{"offset": fmt.Sprint(off)})
+			add("startup-at", 1, map[string]string{"offset": fmt.Sprint(off)})
+		}
+	}
 	if tier == "thorough" {
 		// a second, differently seeded pass over every behavioural kind
 		add("measure-window", 1, nil)
@@ -186,8 +224,28 @@ func plan(tier string, seed int64) []run.Batch {
 // whose window end lies beyond 2^32.
 var highOffsets = []uint32{2130438 * 2016, 2130439 * 2016, 2130440 * 2016}
 
+// wrapSlot is the first timeslot whose start, in seconds since genesis,
+// needs more than 32 bits for the k-th time: ceil(k*2^32/300).
+func wrapSlot(k int64) int64 { return (k*two32 + 299) / 300 }
+
+// atOffsets: for k = 1, 2 and a seed-chosen k the largest multiple of 2016
+// below the wrap slot (so the window contains it, and the clock passes it
+// before the trigger gap), plus the highest window that still ends below 2^32.
+func atOffsets(seed int64) []uint32 {
+	ks := []int64{1, 2, 3 + (seed*7919)%296}
+	var out []uint32
+	for _, k := range ks {
+		out = append(out, uint32(wrapSlot(k)/2016*2016))
+	}
+	return append(out, highOffsets[0])
+}
+
 func child(b run.Batch, r *ev.Result) {
 	switch b.Kind {
+	case "trigger-at":
+		childTriggerAt(b, r)
+	case "startup-at":
+		childStartupAt(b, r)
 	case "prod-consts":
 		childConsts(b, r)
 	case "prod-conv":
@@ -208,6 +266,10 @@ func child(b run.Batch, r *ev.Result) {
 // ---------------------------------------------------------------- production children
 
 type constsOut struct {
+	TZ             string                 `json:"tz"`
+	ZoneName       string                 `json:"zone_name"`
+	ZoneOffsetS    int                    `json:"zone_offset_s"`
+	ZoneOffsetGenS int                    `json:"zone_offset_at_genesis_s"`
 	GenesisTime    int64                  `json:"genesis_time"`
 	DateUnix       int64                  `json:"date_unix"`
 	GenesisWeekday string                 `json:"genesis_weekday"`
@@ -250,6 +312,44 @@ func childConsts(b run.Batch, r *ev.Result) {
 		r.SetExtra("prod.report_migration_frequency_ns", period)
 		r.Count("prod.consts_reported", 1)
 	}
+	// The same production clock under other host time zones: the protocol
+	// clock is defined in UTC, the process zone must not move it.
+	zones := []string{"UTC", "America/New_York", "Asia/Tokyo", "Asia/Kolkata", "Europe/Berlin", "Pacific/Chatham", "America/St_Johns"}
+	zones = append(zones, []string{"Australia/Adelaide", "Pacific/Kiritimati", "Pacific/Pago_Pago", "Asia/Kathmandu", "America/Los_Angeles"}[int(b.Seed%5+5)%5])
+	seenOffsets := map[int]bool{}
+	var zoneLog []string
+	for _, tz := range zones {
+		var z constsOut
+		if !runProdEnv(r, []string{"TZ=" + tz}, &z, "consts", "1500") {
+			return
+		}
+		r.Eval(z.Brackets + 1)
+		r.Count("prod.current_timeslot_brackets", int64(z.Brackets))
+		r.Count("prod.current_timeslot_brackets_discarded", int64(z.BracketsSkew))
+		zoneLog = append(zoneLog, fmt.Sprintf("%s=%s%+ds(genesis%+ds)", tz, z.ZoneName, z.ZoneOffsetS, z.ZoneOffsetGenS))
+		seenOffsets[z.ZoneOffsetGenS] = true
+		if z.ZoneOffsetGenS != 0 {
+			r.Count("prod.timezones_with_nonzero_offset_at_genesis", 1)
+		}
+		if len(z.BracketBad) > 0 {
+			r.Violationf("production-current-timeslot-off-clock:host-timezone", map[string]interface{}{"TZ": tz, "zone": z.ZoneName, "zone_offset_at_genesis_s": z.ZoneOffsetGenS, "brackets": z.BracketBad},
+				"with TZ=%s (UTC offset %+d s on 2023-11-19) production CurrentTimeslot() is outside [floor((t0-G)/300), floor((t1-G)/300)]: %v", tz, z.ZoneOffsetGenS, z.BracketBad)
+		}
+		if z.GenesisTime != docGenesis {
+			r.Violationf("production-genesis-wrong", map[string]interface{}{"TZ": tz, "genesis_time": z.GenesisTime}, "with TZ=%s production GenesisTime is %d", tz, z.GenesisTime)
+		}
+	}
+	// and with TZ removed from the environment (the host's /etc/localtime)
+	var z constsOut
+	if runProdEnv(r, []string{"TZ="}, &z, "consts", "1500") {
+		r.Eval(z.Brackets)
+		zoneLog = append(zoneLog, fmt.Sprintf("unset=%s%+ds", z.ZoneName, z.ZoneOffsetS))
+		if len(z.BracketBad) > 0 {
+			r.Violationf("production-current-timeslot-off-clock:host-timezone", map[string]interface{}{"TZ": "(unset)", "zone": z.ZoneName, "brackets": z.BracketBad},
+				"with TZ unset (zone %s) production CurrentTimeslot() is outside the bracket: %v", z.ZoneName, z.BracketBad)
+		}
+	}
+	r.SetExtra("prod.timezones_probed", zoneLog)
 	r.SetExtra("prod.genesis_time", o.GenesisTime)
 	r.SetExtra("prod.genesis_weekday", o.GenesisWeekday)
 	r.SetExtra("prod.server_consts", o.Server)
@@ -853,6 +953,177 @@ func lastRecordOffset(b []byte) int64 {
 	return int64(recs[len(recs)-1].Week) + 2016
 }
 
+// ---------------------------------------------------------------- trigger and start-up at other absolute positions
+
+func preseedOffset(off uint32) func(e *drv.Srv) error {
+	return func(e *drv.Srv) error {
+		st := refenc.Stats{Week: off - 2016}
+		st.Sig = refenc.Sign(e.Key.Priv, st.SigningBytes())
+		return os.WriteFile(filepath.Join(e.Dir, "allDeviceStats.dat"), st.Bytes(), 0644)
+	}
+}
+
+// relWrap returns the distance from the window start to the wrap slot the
+// window [off, off+2016) contains, or -1.
+func relWrap(off uint32) int64 {
+	k := (int64(off)*300 + two32 - 1) / two32
+	if k == 0 {
+		return -1
+	}
+	if rel := wrapSlot(k) - int64(off); rel >= 0 && rel < 2016 {
+		return rel
+	}
+	return -1
+}
+
+// childTriggerAt measures the background rotation trigger for one window
+// position: the clock walks upwards from the window start, one released loop
+// iteration per step, until the first rotation.
+func childTriggerAt(b run.Batch, r *ev.Result) {
+	var off64 int64
+	fmt.Sscan(b.P("offset"), &off64)
+	off := uint32(off64)
+	p, done := startGated(b, r, off+10, preseedOffset(off))
+	if p == nil {
+		return
+	}
+	defer done()
+	if got := p.offset(); got != off {
+		r.Inconc(fmt.Sprintf("pre-seeded window offset %d not adopted (got %d)", off, got))
+		return
+	}
+	if _, err := p.devFor(0); err != nil {
+		r.Inconc(err.Error())
+		return
+	}
+	p.used[0] = map[uint32]bool{}
+	gaps := []int64{0, 500, 1000, 1500, 2000, 2016, 2500, 3000, 3100}
+	if rel := relWrap(off); rel >= 0 {
+		gaps = append(gaps, rel-1, rel, rel+1) // the clock passes the slot at which timeslot*300 leaves 32 bits
+	}
+	for g := int64(3150); g <= 3260; g++ {
+		gaps = append(gaps, g)
+	}
+	gaps = append(gaps, 3300, 3599, 3600, 3601, 4031, 4032, 4463, 4464, 5000, 6048, 9000)
+	sort.Slice(gaps, func(i, j int) bool { return gaps[i] < gaps[j] })
+	maxNo, rotatedAt := int64(-1), int64(-1)
+	for _, g := range gaps {
+		now := int64(off) + g
+		if now >= two32 {
+			break
+		}
+		if g < 0 || (maxNo >= 0 && g <= maxNo) {
+			continue
+		}
+		drv.SetClock(uint32(now))
+		run.Op("step rotation offset=%d gap=%d", off, g)
+		n := drv.StepRotation()
+		if n < 0 {
+			r.Inconc("the rotation loop did not come round within the watchdog time (no conclusion)")
+			return
+		}
+		r.Eval(1)
+		r.Count("rotation_steps", 1)
+		if n > 0 {
+			r.Count("rotations_observed", int64(n))
+			rotatedAt = g
+			break
+		}
+		maxNo = g
+	}
+	r.Count("measured_trigger_at", 1)
+	r.Sample(map[string]interface{}{"kind": "rotation trigger at offset", "offset": off, "largest_gap_without_rotation": maxNo, "first_gap_with_rotation": rotatedAt,
+		"reached_through": "pre-seeded signed empty allDeviceStats.dat record (trusted disk state)"})
+	r.SetExtra(fmt.Sprintf("measured.rotation_trigger@%d", off), map[string]interface{}{"largest_gap_without_rotation": maxNo, "first_gap_with_rotation": rotatedAt})
+	if rotatedAt < 0 {
+		r.Violationf("rotation-never-triggered", map[string]interface{}{"offset": off, "largest_gap_tried": maxNo},
+			"window offset %d: released rotation-loop iterations never rotated although now-offset went up to %d (window length 4032, acceptance +-432)", off, maxNo)
+		r.SetExtra("trigger_at", map[string]interface{}{"offset": off, "trigger": int64(-1)})
+		return
+	}
+	r.SetExtra("trigger_at", map[string]interface{}{"offset": off, "trigger": maxNo + 1, "exact": rotatedAt == maxNo+1})
+	// after the rotation the furthest acceptable report must be storable
+	now := uint32(int64(off) + rotatedAt)
+	if int64(now)+halfWidth < two32 {
+		if acc, ok := p.probe(now, now+halfWidth); ok && !acc {
+			r.Violationf("rotation-leaves-acceptable-report-outside-window", map[string]interface{}{"offset_before": off, "now": now, "offset_after": p.offset()},
+				"window offset %d rotated at now-offset=%d, yet the acceptable report for slot now+432 is refused (offset now %d)", off, rotatedAt, p.offset())
+		}
+	}
+}
+
+// childStartupAt measures the start-up catch-up for one window position on
+// fresh, identically pre-seeded directories (one start each).
+func childStartupAt(b run.Batch, r *ev.Result) {
+	var off64 int64
+	fmt.Sscan(b.P("offset"), &off64)
+	off := uint32(off64)
+	gaps := []int64{0, 3200, 3201, 3990, 3999, 4000, 4001, 4010, 5000, 6015, 6016, 6017, 8031, 8032, 4000 + (b.Seed*37)%4000}
+	if rel := relWrap(off); rel >= 1 {
+		gaps = append(gaps, rel-1, rel, rel+1)
+	}
+	maxNo, minYes := int64(-1), int64(math.MaxInt64)
+	hist := map[int64]int{}
+	for i, g := range gaps {
+		now := int64(off) + g
+		if now >= two32 {
+			continue
+		}
+		far := now + halfWidth
+		if far >= two32 {
+			far = two32 - 1 // the furthest acceptable slot that exists
+		}
+		bb := b
+		bb.Dir = filepath.Join(b.Dir, fmt.Sprintf("g%d", i))
+		bb.Seed = b.Seed + int64(i)
+		os.MkdirAll(bb.Dir, 0755)
+		run.Op("fresh start offset=%d gap=%d", off, g)
+		p, done := startGated(bb, r, uint32(now), preseedOffset(off))
+		if p == nil {
+			return
+		}
+		p.label = fmt.Sprintf("startup-at offset=%d gap=%d", off, g)
+		after := p.offset()
+		r.Eval(1)
+		r.Count("restarts", 1)
+		if after < off || (after-off)%2016 != 0 {
+			r.Violationf("startup-offset-corrupt", map[string]interface{}{"offset": off, "gap": g, "after": after}, "start with window offset %d and now-offset=%d left window offset %d", off, g, after)
+			done()
+			return
+		}
+		n := int64(after-off) / 2016
+		hist[n]++
+		if n > 0 {
+			if g < minYes {
+				minYes = g
+			}
+		} else if g > maxNo {
+			maxNo = g
+		}
+		n2 := drv.StepRotation()
+		if n2 < 0 {
+			r.Inconc("the rotation loop did not come round within the watchdog time after a start (no conclusion)")
+			done()
+			return
+		}
+		r.Count("rotations_observed", int64(n2))
+		acc, ok := p.probe(uint32(now), uint32(far))
+		if ok && !acc {
+			r.Violationf("startup-leaves-acceptable-report-outside-window", map[string]interface{}{"offset_before": off, "gap": g, "offset_after_start": after, "offset_after_first_loop_iteration": p.offset(), "now": now},
+				"start with window offset %d, now-offset=%d (%d start-up rotations, %d by the first loop iteration): the acceptable report for slot now+432 is refused, window offset is %d", off, g, n, n2, p.offset())
+		} else if ok {
+			r.Count("startup_far_report_accepted", 1)
+		}
+		done()
+		if !ok {
+			return
+		}
+	}
+	r.Count("measured_catchup_at", 1)
+	r.SetExtra("catchup_at", map[string]interface{}{"offset": off, "largest_gap_without_rotation_at_start": maxNo, "smallest_gap_with_rotation_at_start": minYes})
+	r.SetExtra(fmt.Sprintf("measured.catchup@%d", off), map[string]interface{}{"largest_gap_without_rotation_at_start": maxNo, "smallest_gap_with_rotation_at_start": minYes, "rotations_per_start": fmt.Sprint(hist)})
+}
+
 // ---------------------------------------------------------------- extremes
 
 func slotsAround(now uint32, extra []int64, rng *rand.Rand) []uint32 {
@@ -987,6 +1258,7 @@ func num(v interface{}) (int64, bool) {
 func post(c *ev.Check, outs []*run.Outcome) {
 	c.Require("prod.consts_reported", 1)
 	c.Require("prod.current_timeslot_brackets", 100)
+	c.Require("prod.timezones_with_nonzero_offset_at_genesis", 4)
 	c.Require("conv.unix_to_timeslot_calls", 1000000)
 	c.Require("conv.pre_genesis_calls", 100)
 	c.Require("conv_boundary_conversions", 14316558)
@@ -1047,6 +1319,69 @@ func post(c *ev.Check, outs []*run.Outcome) {
 				map[string]interface{}{"batch": o.Batch, "trigger": trig, "period_ns": period, "halfwidth": hw, "window": win})
 		}
 	}
+	// the same thresholds must be found wherever the window lies
+	var mainTrig, mainCatch, mainHW, mainWin int64 = -1, -1, -1, -1
+	for _, o := range outs {
+		if o.Result == nil {
+			continue
+		}
+		if o.Batch.Kind == "measure-window" && mainTrig < 0 {
+			mainTrig, _ = num(o.Result.Extra["measured.rotation_trigger"])
+			up, _ := num(o.Result.Extra["measured.halfwidth_future"])
+			down, _ := num(o.Result.Extra["measured.halfwidth_past"])
+			mainHW = up
+			if down > up {
+				mainHW = down
+			}
+			mainWin, _ = num(o.Result.Extra["measured.window_length"])
+		}
+		if o.Batch.Kind == "measure-startup" && mainCatch < 0 {
+			if v, ok := num(o.Result.Extra["measured.catchup_threshold"]); ok {
+				mainCatch = v
+			}
+		}
+	}
+	periodSlots := (period + int64(300*time.Second) - 1) / int64(300*time.Second)
+	for _, o := range outs {
+		if o.Result == nil {
+			continue
+		}
+		switch o.Batch.Kind {
+		case "trigger-at":
+			m, _ := o.Result.Extra["trigger_at"].(map[string]interface{})
+			trig, ok := num(m["trigger"])
+			off, _ := num(m["offset"])
+			exact, _ := m["exact"].(bool)
+			if !ok || trig < 0 || !havePeriod || mainTrig < 0 || mainWin <= 0 {
+				continue
+			}
+			c.AddCounter("inequality_evaluations_at_other_offsets", 1)
+			if !(trig+periodSlots+mainHW < mainWin) {
+				c.Violation("cadence-inequality-violated", fmt.Sprintf("window offset %d: trigger %d + ceil(production period / 300 s) = %d + half-width %d is not < window %d", off, trig, periodSlots, mainHW, mainWin),
+					map[string]interface{}{"batch": o.Batch, "offset": off, "trigger": trig})
+			}
+			if exact && trig != mainTrig {
+				c.Violation("rotation-trigger-depends-on-window-position", fmt.Sprintf("the released rotation loop first rotates at now-offset=%d for window offset %d but at %d for windows near offset 0: the comparison is not the integer one for every 32-bit value", trig, off, mainTrig),
+					map[string]interface{}{"batch": o.Batch, "offset": off, "trigger": trig, "trigger_low_offsets": mainTrig})
+			}
+		case "startup-at":
+			m, _ := o.Result.Extra["catchup_at"].(map[string]interface{})
+			no, ok1 := num(m["largest_gap_without_rotation_at_start"])
+			yes, ok2 := num(m["smallest_gap_with_rotation_at_start"])
+			off, _ := num(m["offset"])
+			if !ok1 || !ok2 || mainCatch < 0 {
+				continue
+			}
+			c.AddCounter("catchup_comparisons_at_other_offsets", 1)
+			if no >= mainCatch || yes < mainCatch {
+				c.Violation("startup-threshold-depends-on-window-position", fmt.Sprintf("window offset %d: start-up did not rotate at now-offset=%d / first rotated at %d, but the threshold measured near offset 0 is %d", off, no, yes, mainCatch),
+					map[string]interface{}{"batch": o.Batch, "offset": off, "largest_gap_without_rotation_at_start": no, "smallest_gap_with_rotation_at_start": yes, "threshold_low_offsets": mainCatch})
+			}
+		}
+	}
+	c.Require("measured_trigger_at", 4)
+	c.Require("measured_catchup_at", 4)
+	c.Require("inequality_evaluations_at_other_offsets", 4)
 	c.AddCounter("inequality_evaluations", int64(judged))
 	c.Require("inequality_evaluations", 1)
 	var kinds []string
